@@ -12,9 +12,9 @@ TECH = ('symbolic execution of rustc MIR (mirsym) + z3 over symbolic Files/Deps 
 
 PLAN = {
     'C02': ['kernel', 'quiet_memo', 'two_phase'],
-    'C03': ['kernel', 'should_build', 'stamp', 'unlocked', 'record'],
+    'C03': ['kernel', 'should_build', 'stamp', 'unlocked', 'env_inherit', 'record'],
     'C05': ['kernel', 'set_failed', 'should_build', 'record'],
-    'C12': ['kernel', 'cycles'],
+    'C12': ['kernel', 'cycles', 'env_inherit'],
     'C14': ['kernel', 'ifcreate_always'],
     'C17': ['kernel', 'roles', 'ood'],
 }
@@ -35,7 +35,12 @@ def main(pid):
             if only and ob not in only.split(','):
                 continue
             if ob == 'kernel':
-                depscheck.kernel_agreement(chk, N, E, goals=True)
+                wkw = None
+                if pid == 'C14':
+                    # a watched path may come into existence as a directory
+                    from specs.dbmodel import S1, S2, S3, S_DIR
+                    wkw = {'row_kw': {'fs_choices': (None, S1, S2, S3, S_DIR)}}
+                depscheck.kernel_agreement(chk, N, E, goals=True, world_kw=wkw)
             elif ob == 'quiet_memo':
                 depsobl.quiet_and_memo(chk, 2)
             elif ob == 'two_phase':
@@ -46,6 +51,8 @@ def main(pid):
                 depsobl.stamp_facts(chk)
             elif ob == 'unlocked':
                 orchestration.unlocked_reevaluates(chk)
+            elif ob == 'env_inherit':
+                orchestration.inherit_clears_unlocked(chk)
             elif ob == 'set_failed':
                 depsobl.set_failed_facts(chk)
             elif ob == 'cycles':
